@@ -65,7 +65,7 @@ def plan(tier: str, seed: int) -> list[dict]:
         cases.append({"k": "qcow2-snapshots", "i": (i := i + 1), "n": rng.choice([1, 2, 3, 5]), "ext": rng.random() < 0.3})
     for _ in range(30 * mult):
         cases.append({"k": "vdi-parent", "i": (i := i + 1), "depth": rng.choice([2, 2, 3, 4])})
-    fmts = ["vhdx", "vmdk", "vmdk-embedded", "hdd-image", "hdd-shot", "qcow2"]
+    fmts = ["vhdx", "vmdk", "vmdk-embedded", "hdd-image", "hdd-shot", "qcow2", "vmdk-embedded-unnamed"]
     for j in range(18 * mult):
         cases.append({"k": "missing", "i": (i := i + 1), "fmt": fmts[j % len(fmts)]})
     cases.append({"k": "fixture-avhdx", "i": 0, "weight": 10})
@@ -252,6 +252,19 @@ def _missing(case, rng, ctx, res):
         o = call(chains.vmdk_delta, rng, ctx, depth=2, parent_config="missing", child_kind="descriptor")
     elif fmt == "vmdk-embedded":
         o = call(chains.vmdk_delta, rng, ctx, depth=2, parent_config="missing", child_kind="embedded")
+    elif fmt == "vmdk-embedded-unnamed":
+        # a delta extent (parentCID set, parent named in the embedded descriptor) handed over as an unnamed stream,
+        # alone or as a one-element list: there is nothing to resolve the parent against
+        from dissect.hypervisor.disk.vmdk import VMDK
+        from vf.writers import vmdk as wvmdk
+
+        cap = rng.choice([64, 200, 1000])
+        text = wvmdk.descriptor_text([f'RW {cap} SPARSE "child.vmdk"'], cid="22222222", parent_cid=rng.choice(["11111111", "0a0b0c0d", "fffffffe"]),
+                                     parent_hint=rng.choice(["base.vmdk", "/vmfs/volumes/x/base.vmdk", "../base/base.vmdk"]))
+        sf, _, _ = wvmdk.build_hosted(rng, capacity=cap, grain=8, ngte=64, tag=rng.getrandbits(32), descriptor=text)
+        fh = as_handle(sf.to_bytes())
+        assert not hasattr(fh, "name")
+        o = call(lambda: VMDK([fh] if rng.random() < 0.5 else fh).read(512))
     elif fmt == "qcow2":
         from dissect.hypervisor.disk.qcow2 import QCow2
         from vf.writers import qcow2 as wq
